@@ -253,11 +253,12 @@ class RaggedArray:
         with self.open_arrays() as ((iv, vv), (fdv, fdi)):
             vlen = self._values.shape[0]
             vlenincr, ilenincr = self._append(array, fdv, fdi, vlen)
-            self._values._update_len(lenincrease=vlenincr)
-            self._indices._update_len(lenincrease=ilenincr)
-            self._update_readmetxt()
-            self._update_arraydescr(len=len(self._indices),
-                                    size=self._values.size)
+        # update after closing arrays, so that info is based on new data
+        self._values._update_len(lenincrease=vlenincr)
+        self._indices._update_len(lenincrease=ilenincr)
+        self._update_arraydescr(len=len(self._indices),
+                                size=self._values.size)
+        self._update_readmetxt()
 
     def copy(self, path, dtype=None, accessmode='r', overwrite=False):
         """Copy darr to a different path, potentially changing its dtype.
